@@ -69,7 +69,7 @@ func unclassifiedMethods() []string {
 // ---- operand generation ------------------------------------------------------------------------------
 
 func c11Text() *rapid.Generator[string] {
-	return rapid.OneOf(rapid.SampledFrom([]string{"a", "b", "c", "d", "e", "n1", "pkg:npm/a@1", "h1", "MIT"}), hx.TextPlainNE())
+	return rapid.OneOf(rapid.SampledFrom([]string{"a", "b", "c", "d", "e", "n1", "pkg:npm/a@1", "h1", "MIT", "", " ", ""}), hx.TextPlainNE())
 }
 
 func c11Node(t *rapid.T, id string) *sbom.Node {
